@@ -7,7 +7,7 @@ from .. import runprops as P
 
 PROP = "C01"
 PROP_V = "theories/props/C01.v"
-MODEL_AREAS = ('front', 'tc', 'run')
+MODEL_AREAS = ('front', 'tc', 'run', 'rtcheck')
 
 
 def is_bad(res):
